@@ -84,3 +84,52 @@ class NormalizeNativeAssumed:
         return isinstance(result, dict) and implies(isinstance(native_gates, dict) and len(native_gates) > 0, same(result, native_gates))
 
     raises_only = ("JaqalError",)
+
+
+from jaqalpaq.core.register import Register
+from contracts_registers import wf_reg
+from jaqalpaq.emulator.backend import AbstractBackend
+from jaqalpaq.error import JaqalError
+
+
+@spec
+def regs_typed(c) -> bool:
+    return (type_is(c, Circuit) and isinstance(c._registers, dict)
+            and forall_range(dict_len(c._registers), lambda j: type_is(dict_val_at(c._registers, j), Register)))
+
+
+@contract("core.circuit:Circuit.fundamental_registers", props=["C16", "C11"])
+class FundamentalRegisters:
+    """exactly the declared registers (those that are not aliases), in declaration order; nothing is written"""
+
+    def requires(self):
+        return regs_typed(self)
+
+    def ensures(self, result):
+        return (isinstance(result, list) and len(result) <= dict_len(self._registers)
+                and forall_range(len(result), lambda j: type_is(result[j], Register) and result[j]._alias_from is None))
+
+    def ensures_sound(self, result):
+        return forall_range(len(result), lambda j: exists_range(dict_len(self._registers), lambda i: same(result[j], dict_val_at(self._registers, i))))
+
+    def ensures_complete(self, result):
+        return forall_range(dict_len(self._registers), lambda i: implies(dict_val_at(self._registers, i)._alias_from is None,
+                                                                          exists_range(len(result), lambda j: same(result[j], dict_val_at(self._registers, i)))))
+
+    raises_only = ()
+
+
+@contract("emulator.backend:AbstractBackend.get_n_qubits", props=["C16", "C03"])
+class GetNQubits:
+    """the number of qubits emulated is the size of the circuit's one declared register; a circuit without a
+    register is refused with JaqalError (C16), never with anything else for the circuits the parser lets through
+    (which have at most one declared register)"""
+
+    def requires(self, circ):
+        return regs_typed(circ) and forall_range(dict_len(circ._registers), lambda j: wf_reg(dict_val_at(circ._registers, j)))
+
+    def ensures(self, circ, result):
+        return exists_range(dict_len(circ._registers), lambda i: dict_val_at(circ._registers, i)._alias_from is None
+                            and same(result, dict_val_at(circ._registers, i)._size))
+
+    raises_only = ("JaqalError", "NotImplementedError")
